@@ -1025,6 +1025,8 @@ class Rewriter:
                     pass
             with open(fpath, encoding='utf-8') as fp:
                 fdata = fp.read()
+                # Keep the line endings of the file (if it uses one kind only)
+                newline = fp.newlines if isinstance(fp.newlines, str) else None
 
             # Generate line offsets numbers
             # Only '\n' ends a line for the lexer (str.splitlines also breaks at
@@ -1039,7 +1041,8 @@ class Rewriter:
             files[T.cast(str, i['file'])] = {
                 'path': fpath,
                 'raw': fdata,
-                'offsets': line_offsets
+                'offsets': line_offsets,
+                'newline': newline
             }
 
         # Replace in source code
@@ -1079,7 +1082,7 @@ class Rewriter:
         # Write the files back
         for key, val in files.items():
             mlog.log('Rewriting', mlog.yellow(key))
-            with open(val['path'], 'w', encoding='utf-8') as fp:
+            with open(val['path'], 'w', encoding='utf-8', newline=val['newline']) as fp:
                 fp.write(val['raw'])
 
 target_operation_map = {
